@@ -318,6 +318,15 @@ def finish(prop, tier, t0, cov, violations, known, broken):
         broken += lbroken
         for x, sc, path in lviol:
             violations.append(({"op": "concurrent", "pre": "", "field": x["pred"], "want": "", "got": x["detail"], "cfg": None}, path))
+    if prop == "C10" and not broken:
+        # concurrent half of C10: shared flights of Get / BulkGet with every loader outcome, judged by LoadHist.tla
+        import loadcheck
+        lcov, lviol, lbroken = loadcheck.run("C10", tier, None, collect_only=True)
+        cov["concurrent_histories"] = lcov["traces_validated_against_impl"]
+        cov["traces_validated_against_impl"] += lcov["traces_validated_against_impl"]
+        broken += lbroken
+        for x, sc, path in lviol:
+            violations.append(({"op": "concurrent", "pre": "", "field": x["pred"], "want": "", "got": x["detail"], "cfg": None}, path))
     if prop == "C11" and not broken:
         # asynchronous-executor half of C11: gate-scheduled refreshes / reloads judged by LoadHist.tla
         import loadcheck
